@@ -8,9 +8,11 @@
    What is abstracted: the compiler front end.  Its result is the [outcome] (which stage failed, or the
    compiled functions/JSON files as (resource path, text)), supplied by the harness from the same real run.
 
-   [variant] selects between the pinned behaviour of the unchanged tree and the repaired behaviour
-   (fixes/C10-*.patch, fixes/C11-*.patch); the theorems of Props/C10.v, Props/C11.v are about [fixed],
-   the `_refuted_pinned` ones about [pinned]. *)
+   [variant] selects between the pinned behaviour of the unchanged tree and the repaired behaviours
+   (fixes/C10-*.patch, fixes/C11-*.patch).  The theorems of Props/C10.v, Props/C11.v are about every [sound]
+   variant ([fixed] = the first round of repairs, [hardened] = fixes/C10-function-tags-read-first.patch and
+   fixes/C11-atomic-cert.patch on top), the `_refuted_pinned` ones about [pinned]; which variant a source tree
+   has is detected by the harness with witness builds. *)
 From Coq Require Import String List Bool Arith.
 From JMCV Require Import Model.FS.
 Import ListNotations.
@@ -20,10 +22,15 @@ Open Scope list_scope.
 Record variant := mkVariant {
   v_cert_early : bool;   (* read_cert writes jmc.txt for a fresh namespace before lexing *)
   v_mc_static : bool;    (* data/minecraft is deleted with the #static-aware rmtree when statics are declared *)
-  v_ns_last : bool       (* the namespace folder (holder of jmc.txt) is deleted after overrides and data/minecraft *)
+  v_ns_last : bool;      (* the namespace folder (holder of jmc.txt) is deleted after overrides and data/minecraft *)
+  v_tags_early : bool;   (* the function-tag files are read (and rejected) before the first mutation, the parsed values kept *)
+  v_cert_atomic : bool   (* jmc.txt is written as jmc.txt.tmp and moved over the certificate with os.replace *)
 }.
-Definition pinned : variant := mkVariant true false false.
-Definition fixed : variant := mkVariant false true true.
+Definition pinned : variant := mkVariant true false false false false.
+Definition fixed : variant := mkVariant false true true false false.
+Definition hardened : variant := mkVariant false true true true true.
+(* the repairs every theorem needs; the two later flags are free *)
+Definition sound (v : variant) : Prop := v_cert_early v = false /\ v_mc_static v = true /\ v_ns_last v = true.
 
 Record cfg := mkCfg {
   c_ns : string;      (* namespace *)
@@ -54,6 +61,7 @@ Definition root_dir : path := ["."].
 Definition data_dir : path := ["."; "data"].
 Definition ns_dir (c : cfg) : path := ["."; "data"; c_ns c].
 Definition cert_path (c : cfg) : path := ["."; "data"; c_ns c; "jmc.txt"].
+Definition cert_tmp (c : cfg) : path := ["."; "data"; c_ns c; "jmc.txt.tmp"].
 Definition mc_dir : path := ["."; "data"; "minecraft"].
 Definition tags_dir (c : cfg) : path := ["."; "data"; "minecraft"; "tags"; c_ff c].
 Definition load_path (c : cfg) : path := tags_dir c ++ ["load.json"].
@@ -98,7 +106,13 @@ Fixpoint write_files (cur : fs) (l : list (path * string)) : list op :=
   | (p, s) :: r => let ops := write_file cur p (Raw s) in ops ++ write_files (run_ops ops cur) r
   end.
 
-Definition make_cert (c : cfg) (cur : fs) : list op := write_file cur (cert_path c) (Raw (c_cert c)).
+(* make_cert: path.parent.mkdir(parents=True, exist_ok=True), then the text — in place, or (atomic) into
+   jmc.txt.tmp followed by os.replace(jmc.txt.tmp, jmc.txt) *)
+Definition cert_tail (atomic : bool) (c : cfg) : list op :=
+  if atomic then [Create (cert_tmp c); Write (cert_tmp c) (Raw (c_cert c))] ++
+                 rename_ops (cert_tmp c) (cert_path c) (Raw (c_cert c))
+  else [Create (cert_path c); Write (cert_path c) (Raw (c_cert c))].
+Definition make_cert (atomic : bool) (c : cfg) (cur : fs) : list op := mkdir_p cur (ns_dir c) ++ cert_tail atomic c.
 
 (* ---- deletion ---- *)
 Definition excepted (h : hdr) (p : path) : bool := existsb (fun s => is_prefix s p) (h_statics h).
@@ -164,11 +178,33 @@ Definition copy_phase (h : hdr) (cur : fs) : list op :=
 Definition own_entry (c : cfg) (v : string) : bool := String.prefix (c_ns c ++ ":")%string v.
 
 (* read_func_tag: None = JMCBuildError (malformed JSON / no "values") *)
+Definition read_content (c : cfg) (f : option content) : option (list string) :=
+  match f with
+  | Some (Tag vs) => Some (filter (fun v => negb (own_entry c v)) vs)
+  | Some (Raw _) => None
+  | None => Some []
+  end.
 Definition read_tag (c : cfg) (cur : fs) (p : path) : option (list string) :=
   match lookup cur p with
   | Some (TFile (Tag vs)) => Some (filter (fun v => negb (own_entry c v)) vs)
   | Some (TFile (Raw _)) => None
   | _ => Some []
+  end.
+
+(* the regular file the #copy folder holds at the output-relative path p *)
+Definition copy_file (h : hdr) (p : path) : option content :=
+  match h_copy h, p with
+  | Some items, _ :: rel => match lookup (TDir items) rel with Some (TFile ct) => Some ct | _ => None end
+  | _, _ => None
+  end.
+
+(* build(), merged_func_tag ([v_tags_early]): the tag file as it will be once the previous output is deleted and #copy
+   is done — the copied one; else nothing when the old output is deleted and no #static shields the file; else the
+   file that is there — read BEFORE the first mutation. *)
+Definition early_tag (c : cfg) (h : hdr) (is_delete : bool) (cur : fs) (p : path) : option (list string) :=
+  match copy_file h p with
+  | Some ct => read_content c (Some ct)
+  | None => if is_delete && negb (excepted h p) then Some [] else read_tag c cur p
   end.
 
 Definition tag_ops (c : cfg) (o : output) (lv tv : list string) : list op :=
@@ -178,28 +214,42 @@ Definition tag_ops (c : cfg) (o : output) (lv tv : list string) : list op :=
 Definition meta_ops (h : hdr) (o : output) : list op :=
   if h_nometa h then [] else [Create meta_path; Write meta_path (Raw (o_meta o))].
 
-Definition write_phase (c : cfg) (h : hdr) (o : output) (cur : fs) : list op * result :=
-  let ops1 := make_cert c cur in
+(* [tags]: the values read before the first mutation ([v_tags_early]), or None: the tag files are read here *)
+Definition write_phase (v : variant) (c : cfg) (h : hdr) (o : output) (tags : option (list string * list string))
+                       (cur : fs) : list op * result :=
+  let ops1 := make_cert (v_cert_atomic v) c cur in
   let cur1 := run_ops ops1 cur in
   let ops2 := copy_phase h cur1 in
   let cur2 := run_ops ops2 cur1 in
   let ops3 := mkdir_p cur2 (tags_dir c) in
   let cur3 := run_ops ops3 cur2 in
-  match read_tag c cur3 (load_path c), read_tag c cur3 (tick_path c) with
-  | Some lv, Some tv =>
+  match (match tags with
+         | Some (lv, tv) => (Some lv, Some tv)
+         | None => (read_tag c cur3 (load_path c), read_tag c cur3 (tick_path c))
+         end) with
+  | (Some lv, Some tv) =>
       let ops4 := tag_ops c o lv tv in
       let cur4 := run_ops ops4 cur3 in
       let ops5 := write_files cur4 (out_files c h o) in
       (ops1 ++ ops2 ++ ops3 ++ ops4 ++ ops5 ++ meta_ops h o, RDone)
-  | _, _ => (ops1 ++ ops2 ++ ops3, RTagErr)
+  | _ => (ops1 ++ ops2 ++ ops3, RTagErr)
   end.
 
-Definition build (v : variant) (c : cfg) (h : hdr) (o : output) (is_delete : bool) (fault : option path)
-                 (cur : fs) : list op * result :=
+Definition build_with (v : variant) (c : cfg) (h : hdr) (o : output) (tags : option (list string * list string))
+                      (is_delete : bool) (fault : option path) (cur : fs) : list op * result :=
   let dops := if is_delete then del_phase h cur (del_list v c h) else [] in
   let '(pre, hit) := match fault with Some P => cut P dops | None => (dops, false) end in
   if hit then (pre, ROsErr)
-  else let (w, r) := write_phase c h o (run_ops dops cur) in (dops ++ w, r).
+  else let (w, r) := write_phase v c h o tags (run_ops dops cur) in (dops ++ w, r).
+
+Definition build (v : variant) (c : cfg) (h : hdr) (o : output) (is_delete : bool) (fault : option path)
+                 (cur : fs) : list op * result :=
+  if v_tags_early v then
+    match early_tag c h is_delete cur (load_path c), early_tag c h is_delete cur (tick_path c) with
+    | Some lv, Some tv => build_with v c h o (Some (lv, tv)) is_delete fault cur
+    | _, _ => ([], RTagErr)
+    end
+  else build_with v c h o None is_delete fault cur.
 
 (* compile_jmc *)
 Definition run (v : variant) (c : cfg) (h : hdr) (out : outcome) (fault : option path) (cur : fs)
@@ -216,7 +266,7 @@ Definition run (v : variant) (c : cfg) (h : hdr) (out : outcome) (fault : option
           end
         else ([], RRefused)
       else
-        let ops0 := if v_cert_early v then make_cert c cur else [] in
+        let ops0 := if v_cert_early v then make_cert (v_cert_atomic v) c cur else [] in
         match out with
         | Success o => let (ops, r) := build v c h o false fault (run_ops ops0 cur) in (ops0 ++ ops, r)
         | FailLex => (ops0, RLexErr)
@@ -243,7 +293,7 @@ Definition terr_b (c : cfg) (h : hdr) (p : path) : bool :=
 (* the two ancestors a build may have to create *)
 Definition anc_b (p : path) : bool := path_eqb p root_dir || path_eqb p data_dir.
 
-(* every file a successful build writes (certificate, copies, tags, outputs, pack.mcmeta) *)
+(* every file a successful build writes (certificate and its temporary name, copies, tags, outputs, pack.mcmeta) *)
 Definition copy_file_paths (h : hdr) : list path :=
   match h_copy h with
   | Some items => flat_map (fun e => map fst (filter (fun q => match snd q with NFile _ => true | NDir => false end)
@@ -251,7 +301,7 @@ Definition copy_file_paths (h : hdr) : list path :=
   | None => []
   end.
 Definition written_paths (c : cfg) (h : hdr) (o : output) : list path :=
-  cert_path c :: copy_paths h ++ [load_path c; tick_path c] ++ map fst (out_files c h o) ++ [meta_path].
+  cert_path c :: cert_tmp c :: copy_paths h ++ [load_path c; tick_path c] ++ map fst (out_files c h o) ++ [meta_path].
 
 (* declared statics do not collide with what the build writes *)
 Definition static_safe (c : cfg) (h : hdr) (o : output) : bool :=
@@ -260,3 +310,9 @@ Definition static_safe (c : cfg) (h : hdr) (o : output) : bool :=
 (* ---- C11: what "JMC-owned" means ---- *)
 (* strictly inside one of the folders a build deletes *)
 Definition inside (c : cfg) (h : hdr) (p : path) : bool := in_folders c h (removelast p).
+
+(* ---- C11: only make_cert writes the certificate ---- *)
+(* neither #copy nor an emitted function / JSON file lands on jmc.txt *)
+Definition cert_exclusive (c : cfg) (h : hdr) (out : outcome) : bool :=
+  forallb (fun p => negb (path_eqb p (cert_path c)))
+          (copy_paths h ++ match out with Success o => map fst (out_files c h o) | _ => [] end).
